@@ -19,7 +19,7 @@ namespace GlmVerif.C18.Props
 open GlmVerif.C18 GlmVerif.C18.Spec
 
 theorem nlz_ok (x : BitVec 32) : nlz x = Spec.nlz x := by
-  c18_unfold; bv_decide
+  c18_unfold; bv_decide (config := { timeout := 600 })
 example : nlz 1 = 31 ∧ nlz 0 = 32 ∧ nlz 0x80000000#32 = 0 ∧ Spec.nlz 0x00010000#32 = 15 := by decide
 
 /-- the loop multiplies the accumulator by x, n times -/
